@@ -226,6 +226,7 @@ func c20(ctx *Ctx) (*Outcome, error) {
 		cases[i] = genC20Case(ctx, i)
 	}
 	cases = append(cases, c20NameTakenCases()...)
+	cases = append(cases, c20NearNameCases()...)
 	n = len(cases)
 	results = make([]res, n)
 	stage.Parallel(n, func(i int) {
@@ -704,4 +705,39 @@ func declDiff(a, b []byte) string {
 		}
 	}
 	return ""
+}
+
+// c20NearNameCases: files whose relative paths differ only in a leading run of the letters of "file:" (fi/address.json
+// and ie/address.json, e.json and f.json, email.json and mail.json, fname.json and lname.json) - each is a schema of
+// its own, in a package of its own, referred to from a third file.
+func c20NearNameCases() []*c20case {
+	var out []*c20case
+	pairs := [][2]string{{"fi/address.json", "ie/address.json"}, {"e.json", "f.json"}, {"email.json", "mail.json"}, {"fname.json", "lname.json"}, {"el/item.yaml", "le/item.yaml"}}
+	for v, pr := range pairs {
+		for ord := 0; ord < 2; ord++ {
+			mk := func(k int, path string) *sg.SchemaFile {
+				code := &sg.Schema{Types: []string{"string"}, MinLen: k + 2}
+				root := &sg.Schema{ID: fmt.Sprintf("https://example.com/near/%d/%d", v, k), Types: []string{"object"}, Defs: []sg.Prop{{Name: "Code", S: code}},
+					Props: []sg.Prop{{Name: fmt.Sprintf("own%d", k), S: &sg.Schema{Types: []string{"integer"}}}, {Name: "code", S: &sg.Schema{Ref: "#/$defs/Code", Target: code}}}, Required: []string{fmt.Sprintf("own%d", k)}}
+				return &sg.SchemaFile{Path: path, Root: root, ID: root.ID, Name: fmt.Sprintf("near%d", k), YAML: strings.HasSuffix(path, ".yaml")}
+			}
+			a, b := mk(0, pr[0]), mk(1, pr[1])
+			main := &sg.Schema{ID: fmt.Sprintf("https://example.com/near/%d/main", v), Types: []string{"object"}, Props: []sg.Prop{
+				{Name: "first", S: &sg.Schema{Ref: pr[0], Target: a.Root}}, {Name: "second", S: &sg.Schema{Ref: pr[1], Target: b.Root}},
+				{Name: "firstCode", S: &sg.Schema{Ref: pr[0] + "#/$defs/Code", Target: a.Root.Defs[0].S}}, {Name: "secondCode", S: &sg.Schema{Ref: pr[1] + "#/$defs/Code", Target: b.Root.Defs[0].S}}}}
+			fm := &sg.SchemaFile{Path: "customer.json", Root: main, ID: main.ID, Name: "nearmain"}
+			c := &c20case{fs: &sg.FileSet{Files: []*sg.SchemaFile{fm, a, b}}, maps: map[string]c20map{}, noPermute: true, sig: fmt.Sprintf("near-names %s / %s order=%d", pr[0], pr[1], ord)}
+			if ord == 1 {
+				c.fs.Files = []*sg.SchemaFile{b, a, fm}
+			}
+			c.maps["nearmain"] = c20map{pkg: c20Mod + "/defpkg", out: "defpkg/default.go", rootType: "CustomerJson"}
+			for k, f := range []*sg.SchemaFile{a, b} {
+				m := c20map{pkg: fmt.Sprintf("%s/near%d", c20Mod, k), out: fmt.Sprintf("near%d/gen.go", k), rootType: fmt.Sprintf("Near%d", k)}
+				c.maps[f.Name] = m
+				c.flags = append(c.flags, "--schema-package", f.ID+"="+m.pkg, "--schema-output", f.ID+"="+m.out, "--schema-root-type", f.ID+"="+m.rootType)
+			}
+			out = append(out, c)
+		}
+	}
+	return out
 }
